@@ -348,3 +348,38 @@ def run(ctx: Context) -> None:  # noqa: F811
 
     ctx.rep.rule('C18.R8', 'every coroutine call of the async code is awaited where it is made (an un-awaited coroutine skips an operation the sync twin performs)')
     support.coroutine_calls_awaited(ctx, 'C18.R8')
+
+
+_core_run_r9 = run
+
+
+def run(ctx: Context) -> None:  # noqa: F811
+    _core_run_r9(ctx)
+    import ast as _ast
+
+    from .c07 import locks_for, pool_lock_regions
+    from .common import fkey, where
+
+    rep = ctx.rep
+    rep.rule("C18.R9", "the one place where the twins are NOT translations of each other - the pool's thread lock, a no-op in the async flavour and a non-reentrant "
+                       "threading.Lock in the sync flavour - cannot make them diverge: no path from inside a pool-lock region takes the lock again (the async twin "
+                       "would carry on, the sync twin would block for ever)")
+    tree = "sync"
+    N = ctx.names(tree)
+    L = locks_for(ctx, tree)
+    regions = pool_lock_regions(ctx, N)
+    takers = {f.qual for f, w in regions}
+    for i, (f, w) in enumerate(regions):
+        inner = []
+        for s in ctx.callgraph.sites_in(w, f):
+            if any(s.node is it for it in w.items):
+                continue
+            reach = ctx.callgraph.reachable(s.repo_targets())
+            hit = [q for q in reach if q in takers]
+            if hit:
+                inner.append(f"line {s.lineno}: {s.text()} -> {' -> '.join(x.split(':')[1] for x in reach[hit[0]])}")
+        nested = [x for x in _ast.walk(w) if x is not w and isinstance(x, _ast.With) and any(L.lock_id(it.context_expr, f) and L.lock_id(it.context_expr, f)[1] == "threadlock" for it in x.items)]
+        rep.ob("C18.R9", fkey(tree, f, f"region-{sum(1 for g, _ in regions[:i] if g is f)}"), not inner and not nested, where(f, w),
+               "no path from inside the region re-acquires the pool lock" if not inner and not nested else
+               f"the sync twin re-enters its non-reentrant pool lock where the async twin's lock is a no-op: {inner or 'nested with'} - same inputs, the async call returns and the sync call never does")
+    rep.floor("C18.R9", "pool-lock regions (sync)", len(regions), 4)
